@@ -29,6 +29,7 @@ inductive QArg where
   | pairs (items : List (Str × QItem))       -- list/tuple of (key, value)
   | bytes (empty : Bool)
   | other
+  | noArgs                                   -- called with neither a positional argument nor kwargs
   deriving Repr, DecidableEq
 
 def intToStr (n : Int) : Str :=
@@ -72,6 +73,7 @@ def getStrQuery (b : Backend) : QArg → R (Option Str)
   | .pairs items => if items.isEmpty then .ok (some []) else (strQueryFromIterable b items).map some
   | .bytes empty => if empty then .ok (some []) else .error .typeError
   | .other => .error .typeError
+  | .noArgs => .error .valueError
 
 /-! ### stdlib `unquote` / `parse_qsl` -/
 
